@@ -40,7 +40,8 @@ PARTIAL = [
 ]
 ASSUMPTIONS = [
     "the harness's cell classification (element == 0, == 1, neither) of np.array(data) is what numpy's `(data == 0) | (data == 1)` computes",
-    "generated real samples are dyadic (k/8) so signal+noise is exact in float64",
+    "generated real samples are dyadic (k/8) so signal+noise is exact in float64; integer-typed samples/noise are generated so that "
+    "signal+noise stays inside the dtype (numpy wraps `uint8(200)+uint8(100)` to 44 before any comparison: reported, not generated)",
     "the driver evaluates the same Lean definitions the theorems are about",
 ]
 BUDGET = {"quick": 120, "thorough": 900}
@@ -511,6 +512,44 @@ def gen_cases(rng, tier):
                 tn = [[rng.choice([0, 2, 4, 8]), 0] for _ in range(m)] if form == "esig_noise" else None
                 cases.append({"kind": "cmp", "op": rng.choice(["gt", "lt"]), "sig": sig, "noise": noise, "sscale": 1, "scale": SCALE,
                               "sig_dtype": dt, "thr": {"form": form, "vals": tv, "noise": tn}})
+    # UNSIGNED integer signals (+ unsigned noise) against UNSIGNED integer thresholds — numpy scalar, 0-d array, 1-element
+    # array, full-length array, electrical_signal of that dtype — and the mixed pairs unsigned/signed, unsigned/Python int:
+    # a difference of two unsigned values wraps, a comparison must not.  Sums are kept inside the dtype's range (numpy's own
+    # wrap-around of `signal + noise` on overflow is reported separately, not generated).
+    udts = ["uint8", "uint16", "uint32", "uint64"]
+    sdts = ["int16", "int32", "int64"]
+    pairs = [(a, b) for a in udts for b in udts] + [(a, b) for a in udts for b in sdts + [None]] + [(a, b) for a in sdts for b in udts]
+    uforms = ["npscalar", "zerod", "list1", "ndarray", "esig", "esig_noise"]
+    for sd, td in pairs:
+        for form in (uforms if td else ["scalar", "pylist1", "pylist"]):
+            for rep_ in range(1 if quick else 12):
+                n = rng.choice([1, 2, 3, 7, 8])
+                # every sample, sum and threshold must fit the narrowest dtype involved (thresholds reach 2*top + 21)
+                top = 100 if "uint8" in (sd, td) else rng.choice([100, 12000]) if "int16" in (sd, td) else rng.choice([100, 30000])
+                sig = [[rng.randint(0, top), 0] for _ in range(n)]
+                noise = [[rng.randint(0, top // 2), 0] for _ in range(n)] if rng.random() < 0.4 else None
+                m = n if form in ("ndarray", "esig", "esig_noise", "pylist") else 1
+                def near(i):
+                    base = sig[min(i, n - 1)][0] + (noise[min(i, n - 1)][0] if noise else 0)
+                    return max(0, rng.choice([base, base + 1, base - 1, base + rng.randint(1, top // 2 + 1), rng.randint(0, top), top]))
+                tv = [[near(i), 0] for i in range(m)]
+                if m == 1 and n > 1:           # a scalar threshold strictly inside the range of the samples when possible
+                    tot_ = sorted(x[0] + (noise[i][0] if noise else 0) for i, x in enumerate(sig))
+                    tv = [[rng.choice([tot_[len(tot_) // 2], tot_[-1], tot_[0] + 1]), 0]]
+                tn = [[rng.randint(0, 20), 0] for _ in range(m)] if form == "esig_noise" else None
+                thr = {"form": {"pylist1": "list1", "pylist": "list"}.get(form, form), "vals": tv, "noise": tn}
+                if td:
+                    thr["dtype"] = td
+                for op in ("gt", "lt"):
+                    cases.append({"kind": "cmp", "op": op, "sig": sig, "noise": noise, "sscale": 1, "scale": 1,
+                                  "sig_dtype": sd, "thr": thr})
+    # the plain instance: sample codes against a code threshold of the same unsigned dtype
+    for dt in udts:
+        for form in ("npscalar", "list1", "ndarray"):
+            for op in ("gt", "lt"):
+                cases.append({"kind": "cmp", "op": op, "sig": [[10, 0], [50, 0], [90, 0]], "noise": None, "sscale": 1, "scale": 1,
+                              "sig_dtype": dt, "thr": {"form": form, "dtype": dt, "noise": None,
+                                                       "vals": [[50, 0]] * (3 if form == "ndarray" else 1)}})
     # the plain instance of the documented use: a ramp against x.5
     for n in [4, 8]:
         for op in ("gt", "lt"):
@@ -647,6 +686,21 @@ def _thr_obj(thr, scale):
         return {"a": 1}
     if form == "text":
         return thr["text"]
+    if thr.get("dtype"):
+        # integer-typed threshold: numpy scalar, 0-d array, 1-element array, full array, electrical_signal of that dtype
+        dt = getattr(np, thr["dtype"])
+        iv = [int(z[0]) for z in thr["vals"]]
+        if form == "npscalar":
+            return dt(iv[0])
+        if form == "zerod":
+            return np.array(iv[0], dtype=dt)
+        if form in ("list1", "ndarray", "wrong_len"):
+            return np.array(iv, dtype=dt)
+        if form == "esig":
+            return electrical_signal(np.array(iv, dtype=dt))
+        if form == "esig_noise":
+            return electrical_signal(np.array(iv, dtype=dt), np.array([int(z[0]) for z in thr["noise"]], dtype=dt))
+        raise ValueError(form)
     v = _vals(thr["vals"], scale)
     if form == "scalar":
         return v[0]
@@ -778,11 +832,16 @@ def model_requests(case, res):
     return []
 
 
+def _cnt(x):
+    """a counter as the model prints it; NaN / inf / fractional values can never equal the model's integer"""
+    return str(int(x)) if x == x and abs(x) != float("inf") and x == int(x) else repr(x)
+
+
 def _want(r):
     if r["status"] == "ok":
         if r["ndim"] != 1:
             return f"ok-but-ndim-{r['ndim']}"
-        return f"ok {r['len']} {int(r['ones'])} {int(r['zeros'])} {r['bits']}".rstrip()
+        return f"ok {r['len']} {_cnt(r['ones'])} {_cnt(r['zeros'])} {r['bits']}".rstrip()
     if r["status"] == "err":
         return "err " + r["err"]
     return r["status"]
@@ -828,7 +887,7 @@ def _closure(r, where, v):
         return False
     if r["len"] != len(r["bits"]) or r["len2"] != r["len"]:
         v.append((f"C15:len:{where}", f"{where}: len() = {r['len']}/{r['len2']} for {len(r['bits'])} elements"))
-    if r["ones"] != r["bits"].count("1") or r["ones"] + r["zeros"] != r["len"]:
+    if not (r["ones"] == r["bits"].count("1") and r["ones"] + r["zeros"] == r["len"]):      # `not (==)`: NaN counters fail
         v.append((f"C15:count:{where}", f"{where}: ones()={r['ones']} zeros()={r['zeros']} len()={r['len']} for data {r['bits'][:40]}"))
     return True
 
@@ -1002,8 +1061,10 @@ def features(case, res):
         f.append("cmp:op=" + case["op"])
         f.append("cmp:noise=" + ("yes" if case["noise"] else "no"))
         f.append("cmp:dtype=" + str(res.get("dtype_sig")))
-        if case.get("sig_dtype"):
-            f.append("cmp:int-signal-vs-fractional-thr:" + case["sig_dtype"])
+        if case.get("sig_dtype") and case["thr"].get("dtype"):
+            f.append(f"cmp:int-signal-vs-int-thr:{case['sig_dtype']}/{case['thr']['dtype']}")
+        elif case.get("sig_dtype"):
+            f.append("cmp:int-signal-vs-" + ("fractional" if case["scale"] != 1 else "python-int") + "-thr:" + case["sig_dtype"])
         if res["status"] == "err":
             f.append("cmp:err=" + res["err"])
     return f
